@@ -22,6 +22,10 @@ var c09Core = []string{"a", ":v", "AND", "and", "NOT", "SET", "=", "(", ")", ","
 
 var c09Names = map[string]string{"#n": "a"}
 var c09Values = map[string]val.V{":v": val.N("1")}
+
+// other bindings of :v under which every string that mentions it is evaluated once more (on the
+// typed item): a negative number, a fraction, a string, a list
+var c09OtherValues = []map[string]val.V{{":v": val.N("-1")}, {":v": val.N("1e30")}, {":v": val.N("0.5")}, {":v": val.S("x")}, {":v": val.L(val.N("1"))}}
 var c09Items = []val.Item{
 	{"a": val.N("1"), "m": val.M("a", val.N("1")), "l": val.L(val.N("1"))},
 	{},
@@ -36,8 +40,19 @@ type c09stats struct {
 
 // c09Eval evaluates one string in one grammar on the interpreter and judges it.
 func c09Eval(run *ev.Run, st *c09stats, grammar, s string, why string) {
-	names, values := c09Names, c09Values
-	for ii, item := range c09Items {
+	names := c09Names
+	type binding struct {
+		item   val.Item
+		values map[string]val.V
+	}
+	bs := []binding{{c09Items[0], c09Values}, {c09Items[1], c09Values}}
+	if strings.Contains(s, ":v") {
+		for _, ov := range c09OtherValues {
+			bs = append(bs, binding{c09Items[0], ov})
+		}
+	}
+	for _, b := range bs {
+		item, values := b.item, b.values
 		var out itp.Outcome
 		var sentence bool
 		if grammar == "cond" {
@@ -56,9 +71,9 @@ func c09Eval(run *ev.Run, st *c09stats, grammar, s string, why string) {
 		} else {
 			atomic.AddInt64(&st.accepted, 1)
 		}
-		rep := map[string]interface{}{"grammar": grammar, "expression": s, "expression_bytes": []byte(s), "item": item}
+		rep := map[string]interface{}{"grammar": grammar, "expression": s, "expression_bytes": []byte(s), "item": item, "values": values}
 		if out.O == "P" {
-			run.Report(fmt.Sprintf("C09|%s|panic|%s|%s", grammar, why, panicClass(out.Msg)), fmt.Sprintf("%q (item %d): panic %s", s, ii, out.Msg), rep)
+			run.Report(fmt.Sprintf("C09|%s|panic|%s|%s", grammar, why, panicClass(out.Msg)), fmt.Sprintf("%q (item %s, values %v): panic %s", s, item.CanonText(), values, out.Msg), rep)
 			continue
 		}
 		if !sentence && out.O != "E" {
@@ -263,6 +278,15 @@ func C09(run *ev.Run, tier string) map[string]interface{} {
 			}
 		}
 	}
+	// (e) list positions: everything that can be written between the brackets, on a list, a map,
+	// a number and an absent attribute, in reading and in writing positions
+	for _, host := range []string{"l", "m", "a", "zz", "m.a", "l[0]"} {
+		for _, idx := range []string{":v", "#n", "a", "0", "1", "2", "-1", "- 1", "01", "1.5", "1e2", "99999999999999999999", "4294967296", "9223372036854775807", "", " ", "0,1", "0][1", ":v + 1", "size(l)"} {
+			for _, form := range []string{"%s[%s] = :v", "attribute_exists(%s[%s])", "size(%s[%s]) = :v", "SET %s[%s] = :v", "SET a = %s[%s]", "REMOVE %s[%s]", "ADD %s[%s] :v", "SET %s[%s].x = :v", "REMOVE %s[%s][0]"} {
+				emit(fmt.Sprintf(form, host, idx), "list-position")
+			}
+		}
+	}
 	emit("", "empty")
 	emit(" ", "empty")
 	close(ch)
@@ -365,7 +389,7 @@ func C09(run *ev.Run, tier string) map[string]interface{} {
 		"sentences_by_reference":     st.sentences,
 		"rejected_by_implementation": st.rejected,
 		"accepted_by_implementation": st.accepted,
-		"rule":                       fmt.Sprintf("(a) every token string up to length %d over the %d-token alphabet and up to length %d over its %d-token core, joined with and without blanks; (b) every byte string of length 1 and 2 standalone, every byte (and pairs over %d representative bytes incl. NUL and high bytes) embedded at every position of three valid sentences; (c) pumped sentences up to 4 KB and function-arity variants (directed); (d) every operand position of 24 sentence forms (comparators, IN, BETWEEN, the functions, boolean combinations, SET/ADD/DELETE/REMOVE) filled with each of 27 non-operands (conditions, keywords, unknown functions, actions, nothing) next to present and absent operands; each in both grammars against a typed item and an empty item through interpreter.Language.Match/Update; non-sentences up to length %d over the core alphabet through five client API entry points of both SDK clients. A string is distinct by its bytes", maxLen, len(c09Alphabet), coreLen, len(c09Core), len(reps), cmax),
+		"rule":                       fmt.Sprintf("(a) every token string up to length %d over the %d-token alphabet and up to length %d over its %d-token core, joined with and without blanks; (b) every byte string of length 1 and 2 standalone, every byte (and pairs over %d representative bytes incl. NUL and high bytes) embedded at every position of three valid sentences; (c) pumped sentences up to 4 KB and function-arity variants (directed); (d) every operand position of 24 sentence forms (comparators, IN, BETWEEN, the functions, boolean combinations, SET/ADD/DELETE/REMOVE) filled with each of 27 non-operands (conditions, keywords, unknown functions, actions, nothing) next to present and absent operands; (e) 20 spellings of a list position (placeholders, negative, fractional, huge, empty, compound) in 9 reading and writing forms on a list, a map, a number and an absent attribute; each in both grammars against a typed item and an empty item, and strings that mention :v also with :v bound to -1, 1e30, 0.5, a string and a list through interpreter.Language.Match/Update; non-sentences up to length %d over the core alphabet through five client API entry points of both SDK clients. A string is distinct by its bytes", maxLen, len(c09Alphabet), coreLen, len(c09Core), len(reps), cmax),
 		"oracle":                     "no panic; termination (supervisor stall cap); a string the generous reference recogniser rejects (unknown character, incomplete, unbalanced, trailing or juxtaposed tokens, lower-case keyword taken for a name) must be rejected; at the client API: an error or the documented panic carrying the syntax error, never a successful call",
 		"samples":                    []interface{}{"a = :v and a = :v", "( a = :v", "SET a = :v , ", "a = :v\u0000junk", strings.Join(c09Alphabet, " ")},
 		"exhaustive":                 true,
